@@ -1204,7 +1204,16 @@ class C10(Prop):
                 what = (f"subview pointer is {impl_out['ptr']} (base={case['base']}), the element at {offs} of `{to_tsl(L)}` "
                         f"is at base+{want - case['base']}")
                 if not aligned:
-                    fail(what + " (offset not a multiple of the inner tile)", "D23b")
+                    # D23b loses exactly the inner digits (theorem subviewPtr_floor): the pointer is the address of
+                    # the offsets rounded down to their tiles; anything else is a new violation
+                    inners = []
+                    for t in L["ts"]:
+                        inner = 1
+                        for _, b in t[1:]:
+                            inner *= b
+                        inners.append(inner)
+                    floor = case["base"] + case["el"] * ref_addr(ts, [o // i * i for o, i in zip(offs, inners)])
+                    fail(what + " (offset not a multiple of the inner tile)", "D23b" if impl_out["ptr"] == floor else None)
                 else:
                     fail(what, "D23" if all(o is not None for o in case["offs"]) or any(
                         o not in (None, 0) for o in case["offs"]) else None)
